@@ -853,6 +853,66 @@ pub fn make_bp<C: Cv>(side: &Side, role: &str, mut events: Option<&mut Vec<Value
                 ev["kind"] = json!(kind);
                 ev["n"] = json!(n);
                 ev["m"] = json!(m);
+                // the same view walked in other ways an iterator can be walked (nth, skip after next, step_by, count, last, size_hint):
+                // every walk must list what plain iteration lists
+                let walks = catch_unwind(AssertUnwindSafe(|| -> Vec<String> {
+                    let view = || -> Box<dyn Iterator<Item = &C::G> + '_> { if kind == "G" { Box::new(t.G(*n, *m)) } else { Box::new(t.H(*n, *m)) } };
+                    let plain: Vec<C::G> = view().cloned().collect();
+                    let len = plain.len();
+                    let mut bad = vec![];
+                    let cap_take = len + 2;
+                    if view().step_by(1).take(cap_take).cloned().collect::<Vec<_>>() != plain {
+                        bad.push("step_by(1)".to_string());
+                    }
+                    if len > 0 {
+                        let every2: Vec<C::G> = plain.iter().step_by(2).cloned().collect();
+                        if view().step_by(2).take(cap_take).cloned().collect::<Vec<_>>() != every2 {
+                            bad.push("step_by(2)".to_string());
+                        }
+                    }
+                    for j in 0..=len {
+                        if view().nth(j).cloned() != plain.get(j).cloned() {
+                            bad.push(format!("nth({})", j));
+                            break;
+                        }
+                    }
+                    // next() k times, then nth(d): must land on element k + d
+                    'outer: for k in 0..=len.min(6) {
+                        for d in 0..=2usize {
+                            let mut it = view();
+                            for _ in 0..k { it.next(); }
+                            if it.nth(d).cloned() != plain.get(k + d).cloned() {
+                                bad.push(format!("{} x next() then nth({})", k, d));
+                                break 'outer;
+                            }
+                        }
+                    }
+                    for k in 0..=len.min(6) {
+                        let mut it = view();
+                        for _ in 0..k { it.next(); }
+                        let rest: Vec<C::G> = it.skip(1).take(cap_take).cloned().collect();
+                        if rest != plain.iter().skip(k + 1).cloned().collect::<Vec<_>>() {
+                            bad.push(format!("{} x next() then skip(1)", k));
+                            break;
+                        }
+                    }
+                    if view().count() != len { bad.push("count()".to_string()); }
+                    if view().last().cloned() != plain.last().cloned() { bad.push("last()".to_string()); }
+                    if *m >= 1 {
+                        // (size_hint subtracts from n * (m - party): defined for m >= 1)
+                        let mut it = view();
+                        for k in 0..=len {
+                            let (lo, hi) = it.size_hint();
+                            if lo > len - k || hi.map(|h| h < len - k).unwrap_or(false) {
+                                bad.push(format!("size_hint() after {} items: ({}, {:?}), {} remain", k, lo, hi, len - k));
+                                break;
+                            }
+                            it.next();
+                        }
+                    }
+                    bad
+                }));
+                ev["walks_bad"] = match walks { Ok(b) => json!(b), Err(p) => json!([format!("panic: {}", panic_msg(p))]) };
                 match r {
                     Ok(v) => ev["ret"] = Value::Array(v),
                     Err(p) => ev["panic"] = json!(panic_msg(p)),
